@@ -118,7 +118,8 @@ RESUME = {
     'merge': True,
     'property': ['C06'],
     'params': {'script_parts': 'Any', 'options': 'Rec[SchedOptions]', 'features': 'Any',
-               'layers': 'List[Tuple[Str,Layer,Suite]]', 'failures': 'Any', 'errors': 'Any', 'skipped': 'Any', 'cwd': 'Any'},
+               'layers': 'List[Tuple[Str,Layer,Suite]]', 'failures': 'List[Tuple[Any,Any]]', 'errors': 'List[Tuple[Any,Any]]',
+               'skipped': 'List[Tuple[Any,Any]]', 'cwd': 'Any'},
     'returns': 'int',
     'ghost': {'started': 'Set[Thread]', 'dead': 'Set[Thread]', 'doneseen': 'Set[SubResult]', 'printed': 'int', 'npop': 'int'},
     'locals': LOOP_LOCALS,
